@@ -87,16 +87,12 @@ func runOneMutant(m Mutant, repo string, self string) MutantResult {
 		return res
 	}
 	if code == 1 && strings.Contains(out, "VIOLATION property="+m.Prop) {
-		if m.Rule == "" || strings.Contains(out, "rule="+m.Rule) {
-			res.Status = "detected"
-			// first violation line
-			for _, l := range strings.Split(out, "\n") {
-				if strings.HasPrefix(l, "violation: ") {
-					res.Detail = trunc(l, 200)
-					break
-				}
+		for _, l := range strings.Split(out, "\n") {
+			if strings.HasPrefix(l, "violation: rule=") && strings.Contains(strings.SplitN(l, " ", 3)[1], m.Rule) {
+				res.Status = "detected"
+				res.Detail = trunc(l, 200)
+				return res
 			}
-			return res
 		}
 		res.Status, res.Detail = "missed", "violation reported but not by rule "+m.Rule
 		return res
@@ -121,7 +117,7 @@ func runMutants(prop, repo string) []MutantResult {
 		}
 	}
 	results := make([]MutantResult, len(ms))
-	sem := make(chan struct{}, 4)
+	sem := make(chan struct{}, 6)
 	var wg sync.WaitGroup
 	for i := range ms {
 		wg.Add(1)
